@@ -22,7 +22,7 @@ RULE = ('Histories: Hypothesis draws a frame with prior content (zeros / seeded 
 ASSUMPTIONS = ['boundary columns of a range (within half a channel of either end) may be included or not',
                'bounded vs unbounded agree to 1e-10 relative (different sub-grid origin under integrate_f_profile)',
                'randomised path/profile families carry their own seeds and are rebuilt per injection']
-REQUIRED_CLASSES = ['helper_injection', 'noise_stats_first_read_after_injection', 'prior=zeros', 'prior=noise', 'prior=file32', 'prior=via_cadence', 'wide_frame', 'range=inside', 'range=clip_low', 'range=clip_high',
+REQUIRED_CLASSES = ['helper_injection', 'noise_stats_first_read_after_injection', 'prior=zeros', 'prior=noise', 'prior=file32', 'prior=via_cadence', 'prior=negzero', 'wide_frame', 'range=inside', 'range=clip_low', 'range=clip_high',
                     'range=below', 'range=above', 'range=reversed', 'n>=2', 'asc', 'desc']
 
 
@@ -45,7 +45,7 @@ def strategy_(draw, tier):
                                            {'kind': 'custom', 'a': 1.3}, {'kind': 'float', 'level': 0.4}])))
         injections.append(dict(sig=sg, opts=draw(S.opts_strategy()), range=draw(S.range_strategy())))
     perm = draw(st.permutations(list(range(n))))
-    return dict(g=g, wide=wide, prior=draw(st.sampled_from(['zeros', 'noise', 'noise', 'file32', 'via_cadence'])),
+    return dict(g=g, wide=wide, prior=draw(st.sampled_from(['zeros', 'noise', 'noise', 'file32', 'via_cadence', 'negzero'])),
                 prior_seed=draw(st.integers(0, 10 ** 6)), inj=injections, perm=list(perm),
                 # the noise estimates are looked at for the first time only after the injections
                 late_stats=draw(st.sampled_from([False, False, False, True])),
@@ -82,6 +82,10 @@ def make_prior(stg, case, ctx):
         mid = float(fr.fs[len(fr.fs) // 2])
         cad.add_signal(stg.constant_path(f_start=mid, drift_rate=0.3 * fr.df / fr.dt), stg.constant_t_profile(level=1.0),
                        stg.gaussian_f_profile(width=3 * fr.df), doppler_smearing=True, smearing_subsamples=3)
+    if prior == 'negzero':
+        # user-assigned content holding negative zeros (e.g. a product with a negative gain): untouched pixels keep their sign bit
+        fr.data[:, ::2] = -0.0
+        fr.data[::2, 1::2] = -1.5
     if prior == 'noise':
         fr.add_noise(x_mean=10.0, x_std=1.0, noise_type='gaussian')   # chi2 needs df*dt >= 1 (C11)
     return fr
@@ -194,6 +198,8 @@ def run_case(case, ctx):
                 obs.fail(f'return_nonzero_outside:{rk}', f'{int(np.sum(np.any(ret != 0, axis=0) & outside))} columns')
             if not np.array_equal(fr.data[:, outside], before[:, outside]):
                 obs.fail(f'data_touched_outside:{rk}', '')
+            elif np.ascontiguousarray(fr.data[:, outside]).tobytes() != np.ascontiguousarray(before[:, outside]).tobytes():
+                obs.fail(f'data_touched_outside_bitwise:{rk}', 'equal values, different bits (sign of zero)')
             # bounded == unbounded restricted (twin frame, same seeds)
             tw = gen.make_frame(stg, twin_geom)
             ok, full = core.call(obs, 'add_signal_unbounded', inject, stg, tw, ax, inj, False)
